@@ -80,7 +80,11 @@ CheckCase(c) ==
   CASE c.ev = "construct" -> CheckConstruct(id, c)
     [] c.ev = "covobs"    -> CheckCovObs(id, c)
     [] c.ev = "wf"        -> IF c.require = "closed"
-                             THEN Verdict(id, "not-closed:" \o WhyNot(c.res), Closed(c.res))
+                             THEN IF Closed(c.res) THEN TRUE
+                                  \* named deviation (recorded finding): powers in which a complex number or a complex observable takes part
+                                  ELSE IF "complexpower" \in DOMAIN c /\ c.complexpower
+                                       THEN Known(id, "powers with complex operands are not closed: Obs ** complex has a complex central value, complex ** Obs and CObs ** x raise")
+                                  ELSE Verdict(id, "not-closed:" \o WhyNot(c.res), FALSE)
                              ELSE Verdict(id, "not-wellformed:" \o WhyNot(c.res), WFAny(c.res))
     [] c.ev = "merge"     -> IF MergeRejects(c.list) THEN Verdict(id, "merge-must-raise", c.res.k = "exc")
                              ELSE CheckAgainst(id, "merge", c.res, Merge(c.list), FoldSeq(LAMBDA o, acc : RMax(acc, Scale(o)), "0", c.list))
@@ -95,7 +99,11 @@ CheckCase(c) ==
                                                            [j \in DOMAIN xs |-> IF RFloor(RAdd(xs[j], "1/2")) = c.target THEN "1" ELSE "0"]]]), "1")
     [] c.ev = "frame"     -> Verdict(id, c.what, c.before = c.after)
     [] c.ev = "inherit"   -> \* everything derived from a reweighted observable is flagged reweighted
-                             Verdict(id, "reweighted-not-inherited", c.res.k = "obs" /\ c.res.o.rew = c.expect)
+                             IF c.res.k = "obs" /\ c.res.o.rew = c.expect THEN TRUE
+                             \* named deviation (recorded finding): results that went through the jackknife export / import lose the flag
+                             ELSE IF "route" \in DOMAIN c /\ c.route = "jackknife" /\ c.res.k = "obs" /\ c.expect /\ ~c.res.o.rew
+                                  THEN Known(id, "the reweighted flag is not inherited by jack_matmul / einsum results (they are re-imported from jackknife samples)")
+                             ELSE Verdict(id, "reweighted-not-inherited", FALSE)
     [] OTHER -> Verdict(id, "unknown-event", FALSE)
 
 Init == l = 1 /\ LoadCases
